@@ -181,7 +181,15 @@ def _error_conditions(stmts) -> List[dict]:
 def _guard_obligation(rep, rid, f, label: str, want_atoms: Dict[object, bool], detail: str, stmts=None):
     """The function raises exactly when some wanted atom has the wrong value: `want_atoms` maps each atom to the value it
     must have for the input to be *accepted*."""
-    conds = _error_conditions(stmts if stmts is not None else statements(f))
+    body_stmts = stmts if stmts is not None else statements(f)
+    conds = _error_conditions(body_stmts)
+    # a return placed in front of a guard leaves the function before the guard is evaluated
+    last_guard = max((i for i, st in enumerate(body_stmts) if _error_conditions([st])), default=-1)
+    early = [line_of(r) for i, st in enumerate(body_stmts[: max(last_guard, 0)]) for r in walk(st) if r.get("kind") == "ReturnStmt"]
+    if early:
+        rep.add(rid, label, False, f"{detail}; a `return` at line {early} leaves the function before the guard is evaluated: inputs taking that "
+                                   f"path are converted without the check", hloc(f))
+        return
     try:
         atoms: Set[object] = set()
         for c in conds:
@@ -435,7 +443,8 @@ def rule_matlab_calls(ctx, rep: Report, rid="K12"):
             if b.get("kind") == "VarDecl" and b.get("name") in rets and b.get("inner") and callee(strip(b["inner"][-1])) == "create_object":
                 assigned.append(None)
         direct = [r for r in walk(wf) if r.get("kind") == "ReturnStmt" and r.get("inner") and callee(strip(r["inner"][0])) == "create_object"]
-        ok = (sorted(assigned, key=repr) == sorted([True, False], key=repr)) or assigned == [None] or len(direct) >= 1 and not rets
+        n_rets = len([r for r in walk(wf) if r.get("kind") == "ReturnStmt" and r.get("inner")])
+        ok = (sorted(assigned, key=repr) == sorted([True, False], key=repr)) or assigned == [None] or (n_rets > 0 and len(direct) == n_rets)
         rep.add(rid, "wrap_shared_ptr:the returned object comes from create_object for virtual and plain classes alike", ok,
                 f"`{rets}` assigned from create_object under isVirtual = {assigned}: on the other path an uninitialised pointer is returned to MATLAB",
                 hloc(wf))
